@@ -68,6 +68,7 @@ fn main() {
             // vh iso-job <kind> <tier> <job>: run one isolated job in this process (debug / replay)
             let thorough = args[3] == "thorough";
             let job: usize = args[4].parse().unwrap();
+            isolate::limit_memory(6);
             let mut agg = rep::Agg::default();
             let t0 = std::time::Instant::now();
             match args[2].as_str() {
